@@ -318,7 +318,41 @@ def nested_multiline_case(case):
     return dict(key=case, nontrivial=True, failures=fails, sample=dict(lines=seq))
 
 
+TWIN_DOCS = [
+    # unnamed parallel edges that are identical in content (legal: two alignments of the same two segments); a named twin pair; an edge of a
+    # segment with itself: each is ONE edge of the induced set, none is lost, none is counted twice
+    (["E\t*\tA+\tB+\t6\t8$\t0\t2\t*", "E\t*\tA+\tB+\t6\t8$\t0\t2\t*"], "A B", 2),
+    (["E\t*\tA+\tB+\t6\t8$\t0\t2\t*", "E\t*\tA+\tB+\t6\t8$\t0\t2\t*", "E\tx1\tB+\tC+\t6\t8$\t0\t2\t*"], "A B C", 3),
+    (["E\t*\tA+\tA+\t6\t8$\t0\t2\t*", "E\t*\tA+\tB+\t6\t8$\t0\t2\t*"], "A B", 2),
+    (["E\t*\tA+\tA-\t6\t8$\t6\t8$\t*", "E\t*\tA+\tA-\t6\t8$\t6\t8$\t*"], "A", 2),
+    (["E\t*\tA+\tB+\t6\t8$\t0\t2\t*", "E\t*\tC+\tD+\t6\t8$\t0\t2\t*"], "A B C", 1),
+]
+
+
+def twin_case(case):
+    _, idx, order = case
+    elines, items, want = TWIN_DOCS[idx]
+    lines = BASE + elines + ["U\tu\t" + items]
+    if order:
+        lines = list(reversed(lines))
+    fails = []
+    try:
+        g = gfapy.Gfa(lines, version="gfa2")
+        u = g.line("u")
+        es = u.induced_edges_set
+        if len(es) != want or len({id(e) for e in es}) != want:
+            fails.append(dict(signature="C17:twin-edges:induced-edges-%d-instead-of-%d" % (len(es), want), what=str([str(e) for e in es]), case=dict(lines=lines)))
+        tot = u.induced_set
+        if len(tot) != len(u.induced_segments_set) + want:
+            fails.append(dict(signature="C17:twin-edges:induced-set-size", what=str([str(e) for e in tot]), case=dict(lines=lines)))
+    except Exception as e:
+        fails.append(dict(signature="C17:twin-edges:raises-%s" % type(e).__name__, what=harness.short(e), case=dict(lines=lines)))
+    return dict(key=case, nontrivial=True, failures=fails, sample=dict(lines=lines))
+
+
 def check_any(case):
+    if case[0] == "twin":
+        return twin_case(case)
     if case[0] == "N":
         return nested_multiline_case(case)
     if case[0] in ("O", "U"):
@@ -404,6 +438,9 @@ def cases(tier, seed):
             out.append((rt, parts, perm))
         if rt == "U":
             pass
+    for i in range(len(TWIN_DOCS)):
+        for order in (0, 1):
+            out.append(("twin", i, order))
     return out
 
 
